@@ -239,7 +239,7 @@ func TestC14RandomLong(t *testing.T) {
 // with other content queued before and after.
 func TestC14ColumnPaths(t *testing.T) {
 	rapid.Check(t, func(rt *rapid.T) {
-		cols, rows := drawBlock(rt, 3)
+		cols, rows := drawBlockWide(rt, 3)
 		checkPaths(rt, cols, rows)
 	})
 }
